@@ -179,11 +179,37 @@ theorem insertL_spec (ctx : Ctx α D U) (doSplit : Bool) (x : Elem α) (k : Nat)
         obtain ⟨us', h⟩ := ih.2 m c0 hm
         exact ⟨us', by simpa [show i + (m + 1) = i + 1 + m by omega] using h⟩
 
-/-- what `Node::split` must establish for `Node::add` to preserve the invariant. -/
+mutual
+/-- every node has `degree_ >= 1` (with `degree_ = 0` `split` would call `kcenters` with `k = 0`). -/
+def Node.degPos : Node α D → Bool
+  | .mk _ deg _ _ _ ch => decide (0 < deg) && degPosL ch
+def degPosL : List (Node α D) → Bool
+  | [] => true
+  | c :: cs => c.degPos && degPosL cs
+end
+
+theorem degPosL_iff : ∀ (ch : List (Node α D)), degPosL ch = true ↔ ∀ c ∈ ch, c.degPos = true
+  | [] => by simp [degPosL]
+  | c :: cs => by simp [degPosL, degPosL_iff cs]
+
+theorem Node.degPos_mk (p : Elem α) (deg : Nat) (r : Range D) (rg : List (Range D)) (data : List (Elem α))
+    (ch : List (Node α D)) :
+    (Node.mk p deg r rg data ch).degPos = true ↔ 0 < deg ∧ ∀ c ∈ ch, c.degPos = true := by
+  simp [Node.degPos, degPosL_iff]
+
+theorem Node.degPos_parts {t : Node α D} (h : t.degPos = true) : 0 < t.degree ∧ ∀ c ∈ t.children, c.degPos = true := by
+  obtain ⟨p, deg, r, rg, data, ch⟩ := t
+  exact (Node.degPos_mk p deg r rg data ch).mp h
+
+theorem Node.degPos_setRanges (c : Node α D) (r : List (Range D)) : (c.setRanges r).degPos = c.degPos := by cases c; rfl
+theorem Node.degPos_setRad (c : Node α D) (r : Range D) : (c.setRad r).degPos = c.degPos := by cases c; rfl
+
+/-- what `Node::split` must establish for `Node::add` to preserve the invariant and the contents. -/
 def SplitSpec (ctx : Ctx α D U) (removed : List Nat) : Prop :=
-  ∀ (fuel : Nat) (n : Node α D) (us : List U), n.children = [] → isRemoved removed n.pivot = false →
+  ∀ (fuel : Nat) (n : Node α D) (us : List U), n.children = [] → n.data ≠ [] → 0 < n.degree →
+    isRemoved removed n.pivot = false →
     (splitNode ctx fuel n us).1.inv ctx.dist removed = true ∧ (splitNode ctx fuel n us).1.pivot = n.pivot ∧
-      ∀ y ∈ restOf (splitNode ctx fuel n us).1, y ∈ restOf n
+      (restOf (splitNode ctx fuel n us).1).Perm (restOf n) ∧ (splitNode ctx fuel n us).1.degPos = true
 
 theorem count_lt_of_mem : ∀ (l : List (Node α D)) (c : Node α D), c ∈ l → c.count ≤ countL l
   | [], c, h => by simp at h
@@ -202,7 +228,8 @@ theorem mem_elemsL {l : List (Node α D)} {y : Elem α} : y ∈ elemsL l ↔ ∃
 keeps its pivot, and stores nothing but the old copies and the new one. -/
 theorem Node.insert_spec (ctx : Ctx α D U) (removed : List Nat) (doSplit : Bool)
     (hS : doSplit = true → SplitSpec ctx removed)
-    (x : Elem α) : ∀ (N : Nat) (t : Node α D), t.count ≤ N → t.inv ctx.dist removed = true → ∀ (us : List U),
+    (x : Elem α) : ∀ (N : Nat) (t : Node α D), t.count ≤ N → t.inv ctx.dist removed = true →
+      t.degPos = true → ∀ (us : List U),
       (t.insert ctx doSplit x us).1.inv ctx.dist removed = true ∧
       (t.insert ctx doSplit x us).1.pivot = t.pivot ∧
       ∀ y ∈ restOf (t.insert ctx doSplit x us).1, y = x ∨ y ∈ restOf t := by
@@ -213,9 +240,10 @@ theorem Node.insert_spec (ctx : Ctx α D U) (removed : List Nat) (doSplit : Bool
     have := Node.count_eq t
     omega
   | succ N ih =>
-    intro t ht hinv us
+    intro t ht hinv hdp us
     obtain ⟨p, deg, rad, rgs, data, ch⟩ := t
     obtain ⟨hp, hloc, hch⟩ := Node.inv_parts hinv
+    obtain ⟨hdeg, hdpc⟩ := Node.degPos_parts hdp
     cases ch with
     | nil =>
       have hleaf : ∀ y ∈ restOf (Node.mk p deg rad rgs (data ++ [x]) ([] : List (Node α D))),
@@ -233,8 +261,9 @@ theorem Node.insert_spec (ctx : Ctx α D U) (removed : List Nat) (doSplit : Bool
       split
       · split
         · rename_i hds
-          obtain ⟨h1, h2, h3⟩ := hS hds ((data ++ [x]).length + 1) (.mk p deg rad rgs (data ++ [x]) []) us rfl hp
-          exact ⟨h1, h2, fun y hy => hleaf y (h3 y hy)⟩
+          obtain ⟨h1, h2, h3, _⟩ := hS hds ((data ++ [x]).length + 1) (.mk p deg rad rgs (data ++ [x]) []) us rfl
+            (by simp [Node.data]) hdeg hp
+          exact ⟨h1, h2, fun y hy => hleaf y (h3.subset hy)⟩
         · exact ⟨hinv', rfl, hleaf⟩
       · exact ⟨hinv', rfl, hleaf⟩
     | cons c cs =>
@@ -266,7 +295,7 @@ theorem Node.insert_spec (ctx : Ctx α D U) (removed : List Nat) (doSplit : Bool
           (c0.insert ctx doSplit x us').1.pivot = c0.pivot ∧
           ∀ y ∈ restOf (c0.insert ctx doSplit x us').1, y = x ∨ y ∈ restOf c0 := by
         intro c0 hc0 us'
-        apply ih c0 _ (hch c0 hc0)
+        apply ih c0 _ (hch c0 hc0) (hdpc c0 hc0)
         have h1 := count_lt_of_mem (c :: cs) c0 hc0
         have h2 := Node.count_eq (Node.mk p deg rad rgs data (c :: cs))
         simp only [Node.children] at h2
@@ -364,6 +393,141 @@ theorem Node.insert_spec (ctx : Ctx α D U) (removed : List Nat) (doSplit : Bool
           rcases helems m c0 us' hc0m y hyc with ⟨_, h⟩ | h
           · exact Or.inl h
           · exact Or.inr (Or.inr (mem_elemsL.mpr ⟨c0, hc0m, h⟩))
+
+
+theorem elemsL_perm_pointwise : ∀ (L L' : List (Node α D)), L'.length = L.length →
+    (∀ (m : Nat) (c c' : Node α D), L[m]? = some c → L'[m]? = some c' → c'.elems.Perm c.elems) →
+    (elemsL L').Perm (elemsL L)
+  | [], [], _, _ => List.Perm.refl _
+  | [], _ :: _, h, _ => by simp at h
+  | _ :: _, [], h, _ => by simp at h
+  | c :: L, c' :: L', h, hp => by
+    simp only [elemsL]
+    exact (hp 0 c c' (by simp) (by simp)).append
+      (elemsL_perm_pointwise L L' (by simpa using h)
+        (fun m a a' ha ha' => hp (m + 1) a a' (by simpa using ha) (by simpa using ha')))
+
+theorem elemsL_perm_insert (x : Elem α) : ∀ (L L' : List (Node α D)) (k : Nat), L'.length = L.length → k < L.length →
+    (∀ (m : Nat) (c c' : Node α D), L[m]? = some c → L'[m]? = some c' →
+      c'.elems.Perm (if m = k then x :: c.elems else c.elems)) →
+    (elemsL L').Perm (x :: elemsL L)
+  | [], _, k, _, hk, _ => by simp at hk
+  | _ :: _, [], _, h, _, _ => by simp at h
+  | c :: L, c' :: L', 0, h, _, hp => by
+    simp only [elemsL]
+    have h0 := hp 0 c c' (by simp) (by simp)
+    rw [if_pos rfl] at h0
+    have hrest := elemsL_perm_pointwise L L' (by simpa using h)
+      (fun m a a' ha ha' => by
+        have := hp (m + 1) a a' (by simpa using ha) (by simpa using ha')
+        rwa [if_neg (by omega)] at this)
+    exact h0.append hrest
+  | c :: L, c' :: L', k + 1, h, hk, hp => by
+    simp only [elemsL]
+    have h0 := hp 0 c c' (by simp) (by simp)
+    rw [if_neg (by omega)] at h0
+    have ih := elemsL_perm_insert x L L' k (by simpa using h) (by simpa using hk)
+      (fun m a a' ha ha' => by
+        have := hp (m + 1) a a' (by simpa using ha) (by simpa using ha')
+        simpa using this)
+    exact (h0.append ih).trans List.perm_middle
+
+/-- `Node::add` stores exactly the old copies plus the new one, and keeps all degrees positive. -/
+theorem Node.insert_perm (ctx : Ctx α D U) (removed : List Nat) (doSplit : Bool)
+    (hS : doSplit = true → SplitSpec ctx removed)
+    (x : Elem α) : ∀ (N : Nat) (t : Node α D), t.count ≤ N → t.inv ctx.dist removed = true →
+      t.degPos = true → ∀ (us : List U),
+      (t.insert ctx doSplit x us).1.pivot = t.pivot ∧
+      (restOf (t.insert ctx doSplit x us).1).Perm (x :: restOf t) ∧
+      (t.insert ctx doSplit x us).1.degPos = true := by
+  intro N
+  induction N with
+  | zero =>
+    intro t ht
+    have := Node.count_eq t
+    omega
+  | succ N ih =>
+    intro t ht hinv hdp us
+    obtain ⟨p, deg, rad, rgs, data, ch⟩ := t
+    obtain ⟨hp, hloc, hch⟩ := Node.inv_parts hinv
+    obtain ⟨hdeg, hdpc⟩ := Node.degPos_parts hdp
+    cases ch with
+    | nil =>
+      have hleaf : (restOf (Node.mk p deg rad rgs (data ++ [x]) ([] : List (Node α D)))).Perm
+          (x :: restOf (Node.mk p deg rad rgs data ([] : List (Node α D)))) := by
+        simp only [restOf, Node.data, Node.children, elemsL, List.append_nil]
+        exact List.perm_append_comm
+      have hdp' : (Node.mk p deg rad rgs (data ++ [x]) ([] : List (Node α D))).degPos = true := by
+        rw [Node.degPos_mk]; exact ⟨hdeg, by simp⟩
+      unfold Node.insert
+      split
+      · split
+        · rename_i hds
+          obtain ⟨_, h2, h3, h4⟩ := hS hds ((data ++ [x]).length + 1) (.mk p deg rad rgs (data ++ [x]) []) us rfl
+            (by simp [Node.data]) hdeg hp
+          exact ⟨h2, h3.trans hleaf, h4⟩
+        · exact ⟨rfl, hleaf, hdp'⟩
+      · exact ⟨rfl, hleaf, hdp'⟩
+    | cons c cs =>
+      unfold Node.insert
+      simp only []
+      generalize hk : argminFirst ((c :: cs).map (fun c => ctx.dist x.val c.pivot.val)) = k
+      have hklt : k < (c :: cs).length := by
+        have := argminFirst_lt ((c :: cs).map (fun c => ctx.dist x.val c.pivot.val)) (by simp)
+        rw [hk] at this
+        simpa using this
+      obtain ⟨hlen, hspec⟩ := insertL_spec ctx doSplit x k (c :: cs) 0 us
+      generalize (insertL ctx doSplit x k 0 (c :: cs) us).1 = L' at hlen hspec
+      have hIH : ∀ c0 ∈ c :: cs, ∀ us',
+          (c0.insert ctx doSplit x us').1.pivot = c0.pivot ∧
+          (restOf (c0.insert ctx doSplit x us').1).Perm (x :: restOf c0) ∧
+          (c0.insert ctx doSplit x us').1.degPos = true := by
+        intro c0 hc0 us'
+        apply ih c0 _ (hch c0 hc0) (hdpc c0 hc0)
+        have h1 := count_lt_of_mem (c :: cs) c0 hc0
+        have h2 := Node.count_eq (Node.mk p deg rad rgs data (c :: cs))
+        simp only [Node.children] at h2
+        omega
+      have hnew : ∀ (m : Nat) (c0 c' : Node α D), (c :: cs)[m]? = some c0 → L'[m]? = some c' →
+          ∃ us', c' = newChild ctx doSplit x k m c0 us' := by
+        intro m c0 c' hc0 hm
+        obtain ⟨us', h⟩ := hspec m c0 hc0
+        rw [h] at hm
+        simp only [Nat.zero_add, Option.some.injEq] at hm
+        exact ⟨us', hm.symm⟩
+      refine ⟨rfl, ?_, ?_⟩
+      · simp only [restOf, Node.data, Node.children]
+        refine (List.Perm.append_left data (elemsL_perm_insert x (c :: cs) L' k hlen hklt ?_)).trans
+          List.perm_middle
+        intro m c0 c' hc0 hm
+        obtain ⟨us', rfl⟩ := hnew m c0 c' hc0 hm
+        have hc0m : c0 ∈ c :: cs := List.mem_of_getElem? hc0
+        unfold newChild
+        by_cases hmk : m = k
+        · rw [if_pos hmk, if_pos hmk]
+          simp only [Node.setRad_elems, Node.setRanges_elems]
+          obtain ⟨h1, h2, _⟩ := hIH c0 hc0m us'
+          rw [Node.elems_eq, h1, Node.elems_eq c0]
+          exact (List.Perm.cons _ h2).trans (List.Perm.swap _ _ _)
+        · rw [if_neg hmk, if_neg hmk]
+          simp
+      · rw [Node.degPos_mk]
+        refine ⟨hdeg, ?_⟩
+        intro c' hc'
+        obtain ⟨m, hm⟩ := List.mem_iff_getElem?.mp hc'
+        have hmlt : m < (c :: cs).length := by
+          rw [← hlen]
+          by_contra hcon
+          rw [List.getElem?_eq_none (by omega)] at hm
+          cases hm
+        obtain ⟨us', rfl⟩ := hnew m _ c' (List.getElem?_eq_getElem hmlt) hm
+        have hc0m : (c :: cs)[m] ∈ c :: cs := List.getElem_mem hmlt
+        unfold newChild
+        split
+        · rw [Node.degPos_setRad, Node.degPos_setRanges]
+          exact (hIH _ hc0m us').2.2
+        · rw [Node.degPos_setRanges]
+          exact hdpc _ hc0m
 
 end Insert
 
